@@ -845,6 +845,52 @@ theorem pickle_keeps_config (dflt : List (PStr × StrClass)) (sc : Option (List 
     newTagInteresting mn (pickledStringContainers true dflt sc) nm = newTagInteresting mn sc nm ∧
     pickledStringContainers false dflt sc = some dflt := ⟨rfl, rfl, rfl⟩
 
+/-- Pickling with a builder *object* of any truth value: a truthy picklable builder keeps its table (`pickle_keeps_config`);
+    the code as it stands (`__setstate__`: `elif not self.builder`) swaps a FALSY one for a default `HTMLParserTreeBuilder`,
+    so the configuration survives exactly when the object is truthy or its table is the HTML default anyway. -/
+theorem unpickle_builder_truth_value (dflt htmlDflt : List (PStr × StrClass)) (sc : Option (List (PStr × StrClass))) :
+    pickledStringContainersObj true dflt htmlDflt ⟨sc, true⟩ = sc ∧
+    pickledStringContainersObj true dflt htmlDflt ⟨sc, false⟩ = some htmlDflt := ⟨rfl, rfl⟩
+
+/-- witness of the known finding `C13-unpickle-falsy-builder`: a falsy builder configured with `string_containers={}`
+    comes back from a pickle round trip with the default table — `<script>` is a string container again -/
+theorem unpickle_falsy_builder_witness :
+    pickledStringContainersObj true containers containers ⟨some [], false⟩ ≠ some [] ∧
+    newTagInteresting main (pickledStringContainersObj true containers containers ⟨some [], false⟩) (ofS "script") =
+      .ok (.many [.script]) ∧
+    newTagInteresting main (some []) (ofS "script") = .ok (.many main) := by decide
+
+/-- A builder object that happens to be falsy (`__len__() == 0`, `__bool__() == False`) is still a builder: tags made with
+    it get what its `string_containers` says, exactly like a truthy one; only `None` means "no builder". -/
+theorem falsy_builder_is_a_builder (mn : List StrClass) (sc : Option (List (PStr × StrClass))) (t : Bool) (nm : PStr)
+    (p : Interesting) :
+    tagInitInterestingObj mn (some ⟨sc, t⟩) nm p = tagInitInterestingObj mn (some ⟨sc, true⟩) nm p ∧
+    tagInitInterestingObj mn (some ⟨sc, t⟩) nm p = tagInitInteresting mn (some sc) nm p ∧
+    tagInitInterestingObj mn none nm p = .ok p := ⟨rfl, rfl, rfl⟩
+
+example : tagInitInterestingObj main (some ⟨some containers, false⟩) (ofS "script") .none = .ok (.many [.script]) := by decide
+
+section retry
+open BS.Builder
+/-- **Rejected parse attempts leave nothing behind.** `BeautifulSoup.__init__` tries the candidates of
+    `prepare_markup()` in turn, calling `reset()` before each: however many candidates were rejected after sending
+    events — with whatever string-container (and whitespace-preserving) elements still open — the document is the one
+    built from the accepted candidate alone, so its strings have the classes `parsed_text_class` gives them (C03's
+    `rejected_strategies_leave_no_trace`, instantiated with a `string_containers` table). -/
+theorem rejected_attempts_leave_no_container_open (cont : List (PStr × StrClass)) (preserve : Name → Bool)
+    (ascii : List Nat) (root : Name) (st : St) (rej : List Attempt) (hr : ∀ a ∈ rej, a.rejected = true) (evs : List Ev)
+    (later : List Attempt) :
+    parseLoop (builderCfg cont preserve ascii root) st (rej ++ ⟨evs, false⟩ :: later) =
+      some (build (builderCfg cont preserve ascii root) evs) :=
+  BS.Props.C03.rejected_strategies_leave_no_trace _ st rej hr evs later
+
+/-- non-vacuity: a first candidate abandoned inside an open `<template>` (name `[2]` here), then the accepted one: the
+    text `x` of the accepted document is a plain string (class 0), exactly as without the rejected attempt -/
+example : parseLoop (builderCfg [([2], .templateString)] (fun _ => false) [32] [0]) (St.init (builderCfg [([2], .templateString)] (fun _ => false) [32] [0]))
+    [⟨[.start [2] none, .data [120]], true⟩, ⟨[.start [3] none, .data [120]], false⟩] =
+    some [.elem [3] none [.text 0 [120]]] := by rfl
+end retry
+
 /-! ## 13. the consumer edits the string it was just handed (histories of (yield, edit) steps)
 
 `stringsIterEditFrom` (Model/TextHeap.lean) is `for s in tag._all_strings(False, types): <edit>` on the pointer heap:
